@@ -148,6 +148,10 @@ var uploadImpl = map[string]core.Adapter{
 				}
 			}
 		}
+		if (len(names)+len(op))%3 == 1 {
+			// a Filename field inside the document is not where the control file is
+			fmt.Fprintf(&doc, "Filename: %s/outside/%s\n", root, ctl)
+		}
 		ctlPath := filepath.Join(src, ctl)
 		os.WriteFile(ctlPath, []byte(doc.String()), 0o644)
 		var run func(string) error
